@@ -60,6 +60,9 @@ func (it *Interp) toCoins(v Value) *CoinsV {
 	it.checkPoison(v)
 	switch x := v.(type) {
 	case *CoinsV:
+		if x.mat != nil {
+			return it.toCoins(x.mat)
+		}
 		return x
 	case *SliceV:
 		c := &CoinsV{Amt: map[string]Value{}}
@@ -146,6 +149,14 @@ func (it *Interp) coinT() types.Type {
 
 // materialiseCoins turns the vector into a concrete-length []Coin by deciding which amounts are zero.
 func (it *Interp) materialiseCoins(c *CoinsV) *SliceV {
+	if c.mat != nil {
+		return c.mat
+	}
+	c.mat = it.materialiseCoins0(c)
+	return c.mat
+}
+
+func (it *Interp) materialiseCoins0(c *CoinsV) *SliceV {
 	var elems []Value
 	for _, d := range sortedKeys(c.Amt) {
 		a := c.Amt[d]
